@@ -159,10 +159,12 @@ func rulesC20(c *Ctx) {
 	}
 	if f := c.fn("R2", "crypto.(PublicKeys).MarshalJSON"); f != nil {
 		okSort := false
-		for _, ci := range Calls(f) {
-			n := c.P.Describe(ci).Name
-			if n == "slices.Sort" || strings.HasPrefix(n, "sort.") || n == "slices.Sorted" {
-				okSort = true
+		for _, g := range c.OpFuncs(f) {
+			for _, ci := range Calls(g) {
+				n := c.P.Describe(ci).Name
+				if n == "slices.Sort" || strings.HasPrefix(n, "sort.") || n == "slices.Sorted" {
+					okSort = true
+				}
 			}
 		}
 		R.Check("R2", c.P.FuncKey(f), "amounts sorted before emission", c.P.Pos(f.Pos()), okSort, "the key map is emitted in ascending order of amount", "")
